@@ -395,32 +395,37 @@ class Ctx:
 
 
 def run_pool(fn, items, procs=8, initializer=None, on_dead=None, tasks_per_child=12):
-    """fn over items in spawned worker processes, in order.  Workers are recycled and a worker that dies (the kernel's
-    OOM killer under memory pressure) does not hang the run: unfinished items are run again with fewer workers; an item
-    whose worker died three times gets on_dead(item)."""
+    """fn over items in spawned worker processes, in order.  Items are processed in batches, each batch by a fresh pool
+    (workers are thereby recycled: JAX's compilation caches grow; `max_tasks_per_child` is not used, it can deadlock
+    in CPython 3.12.1).  A worker that dies (the kernel's OOM killer under memory pressure) does not hang the run: the
+    unfinished items of the batch are run again with fewer workers; an item whose worker died three times gets
+    on_dead(item)."""
     import multiprocessing as mp
     from concurrent.futures import ProcessPoolExecutor
     from concurrent.futures.process import BrokenProcessPool
-    results = [None] * len(items)
-    done = [False] * len(items)
-    todo = list(range(len(items)))
-    for attempt in range(3):
-        if not todo:
-            break
-        ex = ProcessPoolExecutor(max_workers=min(procs, max(1, len(todo))), mp_context=mp.get_context("spawn"),
-                                 initializer=initializer, max_tasks_per_child=tasks_per_child)
-        futs = {i: ex.submit(fn, items[i]) for i in todo}
-        try:
-            for i, f in futs.items():
-                try:
-                    results[i] = f.result(timeout=3600)
-                    done[i] = True
-                except BrokenProcessPool:
-                    pass
-        finally:
-            ex.shutdown(wait=False, cancel_futures=True)
-        todo = [i for i in todo if not done[i]]
-        procs = max(2, procs // 2)
-    for i in todo:
-        results[i] = on_dead(items[i]) if on_dead else None
+    n = len(items)
+    results = [None] * n
+    done = [False] * n
+    batch = max(1, procs * tasks_per_child)
+    for start in range(0, n, batch):
+        todo = list(range(start, min(n, start + batch)))
+        p = procs
+        for attempt in range(3):
+            if not todo:
+                break
+            ex = ProcessPoolExecutor(max_workers=min(p, len(todo)), mp_context=mp.get_context("spawn"), initializer=initializer)
+            futs = {i: ex.submit(fn, items[i]) for i in todo}
+            try:
+                for i, f in futs.items():
+                    try:
+                        results[i] = f.result(timeout=3600)
+                        done[i] = True
+                    except BrokenProcessPool:
+                        pass
+            finally:
+                ex.shutdown(wait=True, cancel_futures=True)
+            todo = [i for i in todo if not done[i]]
+            p = max(2, p // 2)
+        for i in todo:
+            results[i] = on_dead(items[i]) if on_dead else None
     return results
